@@ -58,6 +58,14 @@ def main():
             if out.want(rid):
                 pr = fem.project(vqs, region)
                 out.write({"id": rid, "kind": "project", "nt": True, "projected": q(pr.reshape(mesh.npoints, -1), S), "nodal": q(nodal, S), "tol": 32})
+                pr2 = fem.project(vqs, region, average=False)
+                out.write({"id": rid + "-noavg", "kind": "project-noavg", "nt": True, "ncomp": size, "cells": [qi(c) for c in mesh.cells],
+                           "extrapolated": q(pr2.reshape(-1, size), S), "nodal": q(nodal, S), "tol": 32})
+                if name in ("quad", "hex"):
+                    pr3 = fem.project(vqs, region, mean=True)
+                    nq, nc = region.dV.shape
+                    out.write({"id": rid + "-mean", "kind": "topoints-mean", "nt": True, "np": int(mesh.npoints), "ncomp": size, "cells": [qi(c) for c in mesh.cells],
+                               "vals": [[q(vq[:, a_, c], S) for a_ in range(nq)] for c in range(nc)], "tp": q(pr3.reshape(mesh.npoints, -1), S)})
             rid = "integral-" + tag
             if out.want(rid):
                 rnd = rng.randint(-8, 9, size=(size,) + region.dV.shape) / 8.0
@@ -80,6 +88,17 @@ def main():
                     ex = fem.tools.extrapolate(vb.reshape(*shape, *base.dV.shape) if shape else vb[0], base)
                     out.write({"id": rid, "kind": "extrapolate", "nt": True, "extrapolated": q(ex.reshape(base.mesh.npoints, -1), S),
                                "nodal": q(nod, S), "tol": 32})
+                    # flag variants: not averaged (one row per cell point); cell means (a multilinear field's weighted cell mean)
+                    vv = vb.reshape(*shape, *base.dV.shape) if shape else vb[0]
+                    ex2 = fem.tools.extrapolate(vv, base, average=False)
+                    out.write({"id": rid + "-noavg", "kind": "extrapolate-noavg", "nt": True, "ncomp": size, "cells": [qi(c) for c in base.mesh.cells],
+                               "extrapolated": q(ex2.reshape(-1, size), S), "nodal": q(nod, S), "tol": 32})
+                    if name in ("quad", "hex"):
+                        ex3 = fem.tools.extrapolate(vv, base, mean=True)
+                        nq, nc = base.dV.shape
+                        out.write({"id": rid + "-mean", "kind": "topoints-mean", "nt": True, "np": int(base.mesh.npoints), "ncomp": size,
+                                   "cells": [qi(c) for c in base.mesh.cells],
+                                   "vals": [[q(vb[:, a_, c], S) for a_ in range(nq)] for c in range(nc)], "tp": q(ex3.reshape(base.mesh.npoints, -1), S)})
         # shifting to points with averaging (values given per cell point)
         if name in ("quad", "hex", "tri", "tet"):
             rid = "topoints-" + name
@@ -92,6 +111,20 @@ def main():
                     tp = fem.topoints(vals, region)
                     out.write({"id": rid, "kind": "topoints", "nt": True, "np": int(mesh.npoints), "ncomp": 3, "cells": [qi(c) for c in mesh.cells],
                                "vals": [[q(vals[:, a_, c], S) for a_ in range(nq)] for c in range(nc)], "tp": q(tp, S)})
+                    logv = lambda v: [[q(v[:, a_, c], S) for a_ in range(v.shape[1])] for c in range(v.shape[2])]  # noqa: E731
+                    cells = [qi(c) for c in mesh.cells]
+                    out.write({"id": rid + "-noavg", "kind": "topoints-noavg", "nt": True, "np": int(mesh.npoints), "ncomp": 3, "cells": cells,
+                               "vals": logv(vals), "tp": q(fem.topoints(vals, region, average=False), S)})
+                    if name in ("quad", "hex"):          # equal quadrature weights
+                        out.write({"id": rid + "-mean", "kind": "topoints-mean", "nt": True, "np": int(mesh.npoints), "ncomp": 3, "cells": cells,
+                                   "vals": logv(vals), "tp": q(fem.topoints(vals, region, mean=True), S)})
+                    # one quadrature point per cell (broadcast) and more quadrature points than cell points (trimmed)
+                    v1 = rng.randint(-8, 9, size=(3, 1, nc)) / 8.0
+                    out.write({"id": rid + "-single", "kind": "topoints-bt", "nt": True, "np": int(mesh.npoints), "ncomp": 3, "cells": cells,
+                               "vals": logv(v1), "tp": q(fem.topoints(v1, region), S)})
+                    vt = rng.randint(-8, 9, size=(3, nq + 3, nc)) / 8.0
+                    out.write({"id": rid + "-trim", "kind": "topoints-bt", "nt": True, "np": int(mesh.npoints), "ncomp": 3, "cells": cells,
+                               "vals": logv(vt), "tp": q(fem.topoints(vt, region), S)})
     # stress measures, view cell data, boundary force and moment
     XS = 64
     for kind in ("hex", "quad", "hex-ni", "quad-ni"):
